@@ -405,6 +405,9 @@ extra_fixed!(u64, 4);
 extra_fixed!(u64, 8);
 extra_fixed!(u8, 9);
 extra_fixed!(u64, 40);
+extra_fixed!(u16, 7);
+extra_fixed!(u8, 11);
+extra_fixed!(u8, 300);
 extra_fixed!(u8, 0);
 
 macro_rules! extra_dyn {
@@ -543,11 +546,13 @@ fn huge_iter_oracle<A: BitVector>() -> bool {
     let n: usize = (1usize << 32) + 8;
     let hot = [n - 3, (1usize << 32) - 2];
     let mut v = A::zeros(n);
-    for h in hot {
-        v.set(h, Bit::One);
-    }
-    let bit = |i: usize| if hot.contains(&i) { Bit::One } else { Bit::Zero };
     let mut ok = true;
+    // run lengths of 2^32 and more (a u32 accumulator would wrap or overflow): first with the single hot bit n - 3
+    v.set(hot[0], Bit::One);
+    ok &= v.trailing_zeros() == n - 3 && v.leading_zeros() == 2 && v.trailing_ones() == 0 && v.leading_ones() == 0;
+    ok &= v.significant_bits() == n - 2 && !v.is_zero();
+    v.set(hot[1], Bit::One);
+    let bit = |i: usize| if hot.contains(&i) { Bit::One } else { Bit::Zero };
     {
         let it = v.iter();
         let r = 0..n;
@@ -556,6 +561,7 @@ fn huge_iter_oracle<A: BitVector>() -> bool {
         ok &= v.iter().last() == Some(bit(n - 1));
         ok &= v.iter().rev().nth(2) == Some(bit(n - 3));
     }
+    ok &= v.trailing_zeros() == (1usize << 32) - 2 && v.leading_zeros() == 2;
     let mut it = v.iter();
     let mut r = 0..n;
     for step in [0usize, 5, 1 << 31, (1 << 31) - 9, 0, 1, 3, 1 << 32] {
